@@ -95,6 +95,8 @@ def check(run, prog):
     guppi_dada(ck, prog, run)
     time_at_offset_at(ck, prog, run)
     statelessness_structure(ck, prog, run)
+    memo_results_untouched(ck, prog, run)
+    single_read_per_request(ck, prog, "R2")
     reader_factor_agreement(ck, prog, "R4")
     run.extra["decided_by"] = ck.how
 
@@ -347,7 +349,81 @@ READING = {"read", "dask_read", "_read_data", "_read_array", "_read_baseband", "
 MUTATORS = {"append", "extend", "insert", "pop", "remove", "clear", "update", "setdefault", "popitem", "sort", "reverse", "add", "discard", "fill", "resize"}
 
 
-def statelessness_structure(ck, prog, run):
+def single_read_per_request(ck, prog, rule):
+    """Dask reads equal eager reads: _read_data must hand the *whole* request (offset, n) to one _read_array call on both
+    paths.  Readers are not required to be additive over adjacent ranges (real-sampled data is Hilbert-transformed per read), so
+    a lazy path that splits the request into sub-ranges returns different samples than the eager path."""
+    f = prog.func("BaseReader._read_data")
+    ck.run.touched(f)
+    params = [p_ for p_, _ in f.params()]
+    if len(params) < 3:
+        ck.unk(rule, f.where, "_read_data(self, offset, n, ...)", "has the request's offset and length as parameters", str(params))
+        return
+    selfn, off, cnt = params[0], params[1], params[2]
+    wrappers = set()
+    alias = {off: off, cnt: cnt}
+
+    def is_read_array(e):
+        return isinstance(e, ast.Attribute) and e.attr == "_read_array" and isinstance(e.value, ast.Name) and e.value.id == selfn
+
+    for st in ast.walk(f.node):
+        if isinstance(st, ast.Assign) and len(st.targets) == 1 and isinstance(st.targets[0], ast.Name):
+            v = st.value
+            if isinstance(v, ast.Call) and v.args and is_read_array(v.args[0]):
+                wrappers.add(st.targets[0].id)          # delayed_read = dask.delayed(self._read_array, ...)
+            # offset/length passed through an index-normalising call keep their meaning
+            src = v.args[0] if (isinstance(v, ast.Call) and len(v.args) == 1 and norm(v.func) in ("int", "operator.index", "np.int64")) else v
+            if isinstance(src, ast.Name) and src.id in alias:
+                n_defs = sum(1 for s2 in ast.walk(f.node) if isinstance(s2, (ast.Assign, ast.AugAssign)) and any(
+                    isinstance(t_, ast.Name) and t_.id == st.targets[0].id for t_ in (s2.targets if isinstance(s2, ast.Assign) else [s2.target])))
+                if n_defs == 1:
+                    alias[st.targets[0].id] = alias[src.id]
+    calls = []
+    for c in ast.walk(f.node):
+        if isinstance(c, ast.Call):
+            fn = c.func
+            direct = is_read_array(fn)
+            wrapped = isinstance(fn, ast.Name) and fn.id in wrappers
+            inline = isinstance(fn, ast.Call) and fn.args and is_read_array(fn.args[0])      # dask.delayed(self._read_array)(...)
+            if direct or wrapped or inline:
+                calls.append(c)
+    if not calls:
+        ck.unk(rule, f.where, "_read_data", "calls self._read_array (directly or through dask.delayed)", "no call found")
+        return
+    for c in calls:
+        a0 = c.args[0] if c.args else next((k.value for k in c.keywords if k.arg == off), None)
+        a1 = c.args[1] if len(c.args) > 1 else next((k.value for k in c.keywords if k.arg == cnt), None)
+
+        def src_of(e):
+            if isinstance(e, ast.Call) and len(e.args) == 1 and norm(e.func) in ("int", "operator.index"):
+                e = e.args[0]
+            return alias.get(e.id) if isinstance(e, ast.Name) else None
+        ok = src_of(a0) == off and src_of(a1) == cnt
+        ck.same(rule, f.where, norm(c)[:100], "every read issued for a request covers exactly the requested (offset, n): the lazy path wraps the same single read "
+                "as the eager path (readers need not be additive over adjacent ranges)", ok,
+                found=f"reads ({norm(a0) if a0 is not None else '?'}, {norm(a1) if a1 is not None else '?'})", nontrivial=True)
+    ck.run.floor(rule, "_read_array call sites in _read_data", len(calls), 2)
+
+
+def memo_results_untouched(ck, prog, run):
+    """Reads are stateless: an object handed out by a memoised function (functools.lru_cache / cache) is handed out again on the
+    next identical call, so no reader code may write into it (in-place conjugation, out=, element stores)."""
+    from ..alias import AliasAnalysis
+    scope = {"pulsarbat.readers._base", "pulsarbat.readers._baseband_readers", "pulsarbat.utils"}
+    an = AliasAnalysis(prog, scope, sanction=lambda fi, node, how: None)
+    sinks = an.run()
+    bad = [s_ for s_ in sinks if any(str(r).startswith("<memoised result") for r in s_.roots)]
+    memo = [f.qualname for f in an.scope if any(d.split("(")[0].split(".")[-1] in ("lru_cache", "cache", "cached_property") for d in f.decorators)]
+    for s_ in bad:
+        ck.same("R3", s_.func.where, norm(s_.node)[:100], "no code writes into an object returned by a memoised function (it would change what the next identical read returns)",
+                False, found=f"{s_.how}; {sorted(map(str, s_.roots))}", nontrivial=True)
+    if not bad:
+        ck.same("R3", "pulsarbat/readers", f"memoised functions in the read path: {memo or 'none'}",
+                "no code writes into an object returned by a memoised function", True, found=f"{len(sinks)} write sites examined in {len(an.scope)} functions",
+                nontrivial=bool(memo))
+
+
+def statelessness_structure(ck, prog, run, only_token=False, rule="R3"):
     n_methods = 0
     for ci in prog.reader_classes():
         consulted = set()
@@ -383,11 +459,38 @@ def statelessness_structure(ck, prog, run):
                     bad.append(norm(node))
                 if isinstance(node, ast.Attribute) and isinstance(node.value, ast.Name) and node.value.id == selfname and isinstance(node.ctx, ast.Load):
                     consulted.add(node.attr)
-            ck.same("R3", m.where, f"{ci.name}.{m.name}", "a reading method / property neither stores to the reader, nor mutates one of its attributes, nor uses global state",
-                    not bad, found="; ".join(bad)[:200], nontrivial=True)
+            if not only_token:
+                ck.same(rule, m.where, f"{ci.name}.{m.name}", "a reading method / property neither stores to the reader, nor mutates one of its attributes, nor uses global state",
+                        not bad, found="; ".join(bad)[:200], nontrivial=True)
         tok = ci.methods.get("__dask_tokenize__")
         if tok is not None:
-            used = {nd.attr for nd in ast.walk(tok.node) if isinstance(nd, ast.Attribute) and isinstance(nd.value, ast.Name) and nd.value.id == tok.params()[0][0]}
+            used, unique = set(), False
+            todo, seen_f = [tok], set()
+            while todo:
+                fcur = todo.pop()
+                if id(fcur) in seen_f:
+                    continue
+                seen_f.add(id(fcur))
+                sname = fcur.params()[0][0] if fcur.params() else "self"
+                for nd in ast.walk(fcur.node):
+                    if isinstance(nd, ast.Attribute) and isinstance(nd.value, ast.Name) and nd.value.id == sname:
+                        used.add(nd.attr)
+                        pr_ = ci.find_property(nd.attr)
+                        if pr_ is not None and pr_["get"] is not None:
+                            todo.append(pr_["get"])
+                        me_ = ci.find_method(nd.attr)
+                        if me_ is not None:
+                            todo.append(me_)
+                    if isinstance(nd, ast.Call) and isinstance(nd.func, ast.Name) and nd.args and isinstance(nd.args[0], ast.Name) and nd.args[0].id == sname:
+                        if nd.func.id == "id":
+                            unique = True          # the object's identity is part of the token: no two readers share it
+                        if nd.func.id in ("repr", "str", "format"):
+                            me_ = ci.find_method("__repr__" if nd.func.id == "repr" else "__str__") or ci.find_method("__repr__")
+                            if me_ is not None:
+                                todo.append(me_)
+            if unique:
+                ck.same(rule, tok.where, f"{ci.name}.__dask_tokenize__", "a custom Dask token is unique per reader object (it contains id(self))", True)
+                continue
             # attributes the read path consults (through properties too)
             need = set()
             for a in consulted:
@@ -405,7 +508,7 @@ def statelessness_structure(ck, prog, run):
                 covered.add(a.lstrip("_"))
             missing = sorted(a for a in state if a not in covered and ci.find_method(a) is None
                              and not (ci.find_property(a) and ("_" + a) in covered))
-            ck.same("R3", tok.where, f"{ci.name}.__dask_tokenize__", "a custom Dask token covers every attribute the read path consults "
+            ck.same(rule, tok.where, f"{ci.name}.__dask_tokenize__", "a custom Dask token covers every attribute the read path consults "
                     "(otherwise two readers that differ in it share graph keys and one lazy read silently replaces the other)",
                     not missing, found=f"not covered by the token: {missing}", nontrivial=True)
-    run.floor("R3", "reading methods and properties of reader classes examined", n_methods, 25)
+    run.floor(rule, "reading methods and properties of reader classes examined", n_methods, 25)
